@@ -62,13 +62,13 @@ Proof.
   intros Hw [Ha _] [Hb _] fuel Hf. unfold Loops.eq_.
   apply while_count_bind with (n := n) (k := 0%nat)
     (Inv := fun k i => i = Z.of_nat k /\ (k <= n)%nat /\ eq_digits a b = eq_digits (skipn k a) (skipn k b)).
-  - intros k i (-> & Hk & Heq) Hc. rewrite ltb_of_nat in Hc. apply Nat.ltb_lt in Hc. split; [exact Hc|].
+  - intros k i (-> & Hk & Heq) Hc. cond_true_in Hc. split; [exact Hc|].
     rewrite !arr_get_nat by lia. cbn [bind].
     rewrite Heq. rewrite (skipn_nth_cons a k) by lia. rewrite (skipn_nth_cons b k) by lia. cbn [eq_digits].
     rewrite ?(Z.eqb_sym (nth k b 0) (nth k a 0)). destruct (nth k a 0 =? nth k b 0); cbn [negb].
     + split; [lia|]. split; [lia | reflexivity].
     + reflexivity.
-  - intros k i (-> & Hk & Heq) Hc. rewrite ltb_of_nat in Hc. apply Nat.ltb_ge in Hc.
+  - intros k i (-> & Hk & Heq) Hc. cond_false_in Hc.
     rewrite Heq. rewrite (skipn_all2 a) by lia. reflexivity.
   - split; [reflexivity|]. split; [lia | reflexivity].
   - lia.
@@ -214,12 +214,12 @@ Proof.
   apply while_count_bind with (n := n) (k := 0%nat)
     (Inv := fun k '(ones, i) => i = Z.of_nat k /\ (k <= n)%nat /\
                                 U_is_power_of_two a = is_power_of_two_loop (skipn k a) ones).
-  - intros k [ones i] (-> & Hk & Heq) Hc. rewrite ltb_of_nat in Hc. apply Nat.ltb_lt in Hc. split; [exact Hc|].
+  - intros k [ones i] (-> & Hk & Heq) Hc. cond_true_in Hc. split; [exact Hc|].
     rewrite arr_get_nat by lia. cbn [bind].
     rewrite Heq. rewrite (skipn_nth_cons a k) by lia. cbn [is_power_of_two_loop].
     rewrite ?Z.gtb_ltb. destruct (1 <? ones + u_count_ones (nth k a 0)); [reflexivity|].
     split; [lia|]. split; [lia | reflexivity].
-  - intros k [ones i] (-> & Hk & Heq) Hc. rewrite ltb_of_nat in Hc. apply Nat.ltb_ge in Hc.
+  - intros k [ones i] (-> & Hk & Heq) Hc. cond_false_in Hc.
     rewrite Heq. rewrite (skipn_all2 a) by lia. reflexivity.
   - split; [reflexivity|]. split; [lia | reflexivity].
   - lia.
@@ -231,12 +231,12 @@ Proof.
   intros Hw [Ha _] fuel Hf. unfold Loops.is_zero.
   apply while_count_bind with (n := n) (k := 0%nat)
     (Inv := fun k i => i = Z.of_nat k /\ (k <= n)%nat /\ is_zero a = is_zero (skipn k a)).
-  - intros k i (-> & Hk & Heq) Hc. rewrite ltb_of_nat in Hc. apply Nat.ltb_lt in Hc. split; [exact Hc|].
+  - intros k i (-> & Hk & Heq) Hc. cond_true_in Hc. split; [exact Hc|].
     rewrite arr_get_nat by lia. cbn [bind].
     rewrite Heq. rewrite (skipn_nth_cons a k) by lia. cbn [is_zero].
     destruct (nth k a 0 =? 0); cbn [negb]; [|reflexivity].
     split; [lia|]. split; [lia | reflexivity].
-  - intros k i (-> & Hk & Heq) Hc. rewrite ltb_of_nat in Hc. apply Nat.ltb_ge in Hc.
+  - intros k i (-> & Hk & Heq) Hc. cond_false_in Hc.
     rewrite Heq. rewrite (skipn_all2 a) by lia. reflexivity.
   - split; [reflexivity|]. split; [lia | reflexivity].
   - lia.
@@ -253,12 +253,12 @@ Proof.
   destruct (d =? 1); cbn [negb]; [|reflexivity].
   apply while_count_bind with (n := n) (k := 1%nat)
     (Inv := fun k i => i = Z.of_nat k /\ (1 <= k <= n)%nat /\ is_zero r = is_zero (skipn k (d :: r))).
-  - intros k i (-> & Hk & Heq) Hc. rewrite ltb_of_nat in Hc. apply Nat.ltb_lt in Hc. split; [exact Hc|].
+  - intros k i (-> & Hk & Heq) Hc. cond_true_in Hc. split; [exact Hc|].
     rewrite arr_get_nat by (cbn [length]; lia). cbn [bind].
     rewrite Heq. rewrite (skipn_nth_cons (d :: r) k) by (cbn [length]; lia). cbn [is_zero].
     destruct (nth k (d :: r) 0 =? 0); cbn [negb]; [|reflexivity].
     split; [lia|]. split; [lia | reflexivity].
-  - intros k i (-> & Hk & Heq) Hc. rewrite ltb_of_nat in Hc. apply Nat.ltb_ge in Hc.
+  - intros k i (-> & Hk & Heq) Hc. cond_false_in Hc.
     rewrite Heq. rewrite (skipn_all2 (d :: r)) by (cbn [length]; lia). reflexivity.
   - split; [reflexivity|]. split; [lia | reflexivity].
   - lia.
